@@ -19,6 +19,7 @@ import (
 	"os"
 	"path/filepath"
 	"regexp"
+	"runtime/pprof"
 	"sort"
 	"strconv"
 	"strings"
@@ -52,7 +53,14 @@ func main() {
 	jobs := flag.Int("j", 8, "parallel entries")
 	solverLog := flag.String("solverlog", "", "write SMT-LIB traffic of the first obligation solver here")
 	listOnly := flag.Bool("list", false, "list entries and exit")
+	cpuprof := flag.String("cpuprofile", "", "write a CPU profile of the run")
+	workers := flag.Int("workers", 0, "path-exploration workers per entry (0 = share 16 cores among running entries)")
 	flag.Parse()
+	if *cpuprof != "" {
+		f, _ := os.Create(*cpuprof)
+		pprof.StartCPUProfile(f)
+		defer pprof.StopCPUProfile()
+	}
 	if *pkgPat == "" || *harness == "" {
 		fatalf("need -pkg and -harness")
 	}
@@ -183,7 +191,7 @@ func main() {
 			}
 			c := buildConfig(s, *tier)
 			r := &Run{cfg: c, prog: prog, pkg: mainPkg, entry: fn, obMap: map[string]*Obligation{}, reachMap: map[string]*ReachRec{},
-				incSet: map[string]bool{}, violSeen: map[string]int{}, errorStringT: errStrT, bigIntT: bigIntT, funcIndex: funcIndex, expectReach: s.reach}
+				incSet: map[string]bool{}, violSeen: map[string]int{}, initSnap: map[*ssa.Package]*pkgSnap{}, errorStringT: errStrT, bigIntT: bigIntT, funcIndex: funcIndex, expectReach: s.reach}
 			r.res = &EntryResult{Entry: s.name, Package: mainPkg.Pkg.Path(), Options: s.opts, Aborted: map[string]int{}, AbortSamples: map[string]string{},
 				FuncsReal: map[string]int{}, FuncsStubbed: map[string]int{}, Panics: map[string]int{}, Events: map[string]int{}, Bounds: map[string]int{}}
 			r.res.Mode = "bv"
@@ -196,15 +204,24 @@ func main() {
 			for k, v := range c.Params {
 				r.res.Bounds["param:"+k] = v
 			}
-			r.feas = NewSolver("z3new", c.FeasTimeout)
-			for _, sn := range c.Solvers {
-				sv := NewSolver(sn, c.ObTimeout)
-				if *solverLog != "" && len(r.obs) == 0 && i == 0 {
-					f, _ := os.Create(*solverLog)
-					sv.logw = f
+			if c.Workers == 0 {
+				c.Workers = *workers
+				if c.Workers == 0 {
+					// spread the cores over the entries that run concurrently
+					conc := len(sel)
+					if conc > *jobs {
+						conc = *jobs
+					}
+					c.Workers = 16 / conc
+					if c.Workers < 1 {
+						c.Workers = 1
+					}
+					if c.Workers > 8 {
+						c.Workers = 8
+					}
 				}
-				r.obs = append(r.obs, sv)
 			}
+			_ = solverLog
 			results[i] = r.Execute()
 			fmt.Fprintf(os.Stderr, "[%s] %s paths=%d obligations=%d wall=%.1fs\n", results[i].Status, s.name, results[i].Paths, len(results[i].Obligations), results[i].WallS)
 		}(i, s)
@@ -275,6 +292,10 @@ func buildConfig(s *entrySpec, tier string) *Config {
 	}
 	if s.opts["mode"] == "int" {
 		c.IntMode = true
+	}
+	geti("workers", &c.Workers)
+	if s.opts["initcache"] == "off" {
+		c.NoInitCache = true
 	}
 	if s.opts["ifconv"] == "off" {
 		c.NoIfConv = true
